@@ -1,0 +1,29 @@
+//go:build verif
+
+// Package verifhook provides named yield points for the verification harness.
+// With the "verif" build tag a harness may install At to observe (and gate)
+// the goroutines the server starts.
+package verifhook
+
+import "sync/atomic"
+
+type hookFn func(point, key string)
+
+var at atomic.Pointer[hookFn]
+
+// Set installs (or, with nil, removes) the hook function.
+func Set(f func(point, key string)) {
+	if f == nil {
+		at.Store(nil)
+		return
+	}
+	h := hookFn(f)
+	at.Store(&h)
+}
+
+// Point calls the installed hook, if any.
+func Point(point, key string) {
+	if h := at.Load(); h != nil {
+		(*h)(point, key)
+	}
+}
